@@ -69,7 +69,11 @@ type scenario struct {
 	// Close must still disconnect. The library waits for its own 30 s flush time-out first, so the driver's stall
 	// watchdog is given 50 s for that one call.
 	Undrained bool `json:"undrained,omitempty"`
-	CutN      int  `json:"cut_n,omitempty"`
+	// DialAPI (dial scenarios): "" = Dial, "url" = DialURL("ardop:///<call>"), "urlctx" = DialURLContext with a context
+	// that is cancelled right after the dial returned (the usual `defer cancel()`), "urlctx-timeout" = a context whose
+	// deadline (150 ms after the dial returned) passes while the connection is in use.
+	DialAPI string `json:"dial_api,omitempty"`
+	CutN    int    `json:"cut_n,omitempty"`
 }
 
 var Check = &vrt.Check{
@@ -116,7 +120,7 @@ var regressClasses = []string{
 	"write-sizes-serial", "write-sizes-tcp", "crcfault-1", "crcfault-2", "crcfault-3", "crcfault-each", "buffer-before-crcfault",
 	"flush-order-serial", "flush-order-tcp", "ptt-order", "close-disconnect-serial", "close-disconnect-tcp",
 	"remote-disconnect", "cut-mid-frame-serial", "cut-mid-frame-tcp", "garbage-serial", "garbage-tcp",
-	"burst-stalled-reader", "listen-serial", "listen-tcp", "offline-start", "empty-frames", "dial-greeting", "close-undrained-serial", "close-undrained-tcp",
+	"burst-stalled-reader", "listen-serial", "listen-tcp", "offline-start", "empty-frames", "dial-greeting", "close-undrained-serial", "close-undrained-tcp", "dial-apis",
 }
 
 func plan(seed int64, tier string) []vrt.Case {
@@ -230,6 +234,9 @@ func genScenario(seed int64, idx int) scenario {
 		sc.Mode = "tcp"
 	}
 	sc.Dial = r.Intn(2) == 0
+	if sc.Dial {
+		sc.DialAPI = []string{"", "", "url", "urlctx", "urlctx-timeout", ""}[idx%6]
+	}
 	sc.Offline = r.Intn(6) == 0
 	sc.EchoNow = r.Intn(2) == 0
 	sc.Trailing = r.Intn(3) == 0
